@@ -131,6 +131,7 @@ type Eng struct {
 	mathTerms [][3]string
 	valueFieldTypes map[string]bool
 	wfFrontier string
+	rootFrame *Frame
 	atRootExit bool
 	siteHits map[*SiteSpec]int
 	modelIDs map[int]bool
